@@ -119,6 +119,11 @@ func optionClasses(c *Case, o *Outcome) {
 	o.class("lay=" + []string{"ns", "longestpath"}[c.Lay])
 	o.class("pos=" + []string{"sink", "valign", "packright", "ns", "bk"}[c.Pos])
 	o.class("rt=" + []string{"polyline", "straight", "ortho", "splines", "noop"}[c.Rt])
+	if u := c.unit(); u > 0 && u < 1.0/128 {
+		o.class("unit<2^-7")
+	} else if u > 1<<21 {
+		o.class("unit>2^21")
+	}
 }
 
 func hasLongEdge(c *Case, l graph.Layout) bool {
